@@ -126,6 +126,15 @@ ElemProgs == { [ops |-> ElemPre[i] \o <<Do(Mem(E0, "concat", <<ElemArgs[a]>>))>>
 TupElemPre == << <<>>, <<Do(Mem(X, "put", <<I(0), NullC>>))>>, <<Do(Mem(X, "put", <<I(0), Call("tup", <<>>)>>))>> >>
 TupElemProgs == { [ops |-> TupElemPre[i] \o <<Do(SetAt(E0, j, ArgsX("tup")[a]))>>, sok |-> a <= NArgs("tup")] : i \in DOMAIN TupElemPre, j \in 1..2, a \in DOMAIN ArgsX("tup") }
                 \cup { [ops |-> TupElemPre[i] \o <<Do(Mem(E0, "concat", <<ArgsX("tu")[a]>>))>>, sok |-> a <= NArgs("tu")] : i \in DOMAIN TupElemPre, a \in DOMAIN ArgsX("tu") }
+\* tab(n, e) evaluates e for every element: an expression whose value changes from one evaluation to the next (an opaque function of a
+\* string that grows) -- whatever it yields later (a null of another type, an untyped null, another type, a table), the
+\* construction is refused or the table is uniform
+VaryLater == <<"str()", "null", "2.5", "\"s\"", "tab(1, 1)", "num()", "int()", "tup(1, 2)", "bool()">>
+VaryFirst == <<"1", "int()", "null", "2.5", "tup(1, \"a\")", "tab(1, 1)">>
+VaryTexts == {"function FV(P) return undefined is begin if P.count() > 2 then return " \o VaryLater[l] \o "; end if; return " \o VaryFirst[f] \o "; end;\n"
+              \o "S = \"a\"; T = tab(4, FV(S.concat(\"x\"))); print T.count();" : l \in DOMAIN VaryLater, f \in DOMAIN VaryFirst}
+             \cup {"function FV(P) return undefined is begin if P.count() > 2 then return " \o VaryLater[l] \o "; end if; return " \o VaryFirst[f] \o "; end;\n"
+                   \o "S = \"a\"; T = tab(1, " \o VaryFirst[f] \o "); for I in 1 to 3 loop T.concat(FV(S.concat(\"x\"))); end loop; print T.count();" : l \in DOMAIN VaryLater, f \in DOMAIN VaryFirst}
 VARIABLE p
 Init == p \in UNION {LET ops == TLCEval(Ops(k)) IN {[k |-> k, ops |-> <<ops[j]>>] : j \in DOMAIN ops} : k \in Kinds}
               \cup (IF H >= 2 THEN UNION {LET red == TLCEval(Reduced(k)) IN {[k |-> k, ops |-> <<red[i], red[j]>>] : i \in DOMAIN red, j \in DOMAIN red} : k \in Kinds} ELSE {})
@@ -134,10 +143,14 @@ Init == p \in UNION {LET ops == TLCEval(Ops(k)) IN {[k |-> k, ops |-> <<ops[j]>>
               \cup UNION {{[k |-> k, ops |-> <<x[1]>>, lock |-> TRUE] : x \in LockProgs(k) \cup IterProgs(k)} : k \in Kinds}
               \cup UNION {{[k |-> k, ops |-> x, lock |-> TRUE] : x \in NestLock(k)} : k \in Kinds}
               \cup {[k |-> "tt", ops |-> x.ops, sok |-> x.sok, key |-> "elem"] : x \in ElemProgs} \cup {[k |-> "tu", ops |-> x.ops, sok |-> x.sok, key |-> "elem"] : x \in TupElemProgs}
+              \cup {[k |-> "vary", t |-> x] : x \in VaryTexts}
               \cup {[k |-> "tup", ops |-> x] : x \in RankProgs} \cup {[k |-> "tup", ops |-> x, key |-> "struct"] : x \in StructProgs}
 Next == UNCHANGED p
 ExecStep(prog) == [op |-> "exec", ctx |-> 0, ast |-> prog, text |-> Render(prog), unpinned |-> TRUE]
 Scenario(q) ==
+  IF q.k = "vary" THEN [prop |-> "C09", key |-> "vary",
+                        steps |-> << [op |-> "exec", ctx |-> 0, free |-> TRUE, text |-> q.t], [op |-> "dump", ctx |-> 0],
+                                     [op |-> "step", ctx |-> 1, free |-> TRUE, text |-> q.t], [op |-> "dump", ctx |-> 1] >>] ELSE
   LET Steps[j \in 0..Len(q.ops)] ==
         IF j = 0 THEN << [op |-> "exec", ctx |-> 0, ast |-> Pre(q.k), text |-> Render(Pre(q.k))], [op |-> "dump", ctx |-> 0] >>
         ELSE Steps[j - 1] \o << (IF "sok" \in DOMAIN q /\ q.sok THEN ExecStep(<<q.ops[j]>>) @@ [static_ok |-> TRUE] ELSE ExecStep(<<q.ops[j]>>)), [op |-> "dump", ctx |-> 0] >>
